@@ -163,3 +163,195 @@ def network_src_unit():
 
 t_r, a_r = Consts('t_r a_r', T.z)
 UNITS += [network_src_unit()]
+
+
+# ================================================================================================ MermaidGantt.__mermaid_task: a task line is exactly one line (C19)
+GANTT = REF('MermaidGantt')
+GCL = dict(NCL); GCL['Task'] = dict(NCL['Task'], start=OT, end=OT)
+
+
+class TaskLinePlugin(NetSrcPlugin):
+    def call(self, eng, e, st):
+        f = e.func
+        if isinstance(f, ast.Attribute) and f.attr == 'format' and isinstance(f.value, ast.Constant) and isinstance(f.value.value, str):
+            # 'literal with {} places'.format(args): the line breaks of the literal plus those of the inserted texts
+            s = st; n = IntVal(f.value.value.count('\n'))
+            for a in e.args:
+                s, v = eng.ev1(a, s)
+                if v.s == TXT: n = n + nl(v.e)
+                elif v.s != INT: raise Unsupported(f'format argument of sort {v.s}')
+            r = fresh('formatted', TXT); s.assume(nl(r) == n)
+            return [(s, V(r, TXT))]
+        if isinstance(f, ast.Name) and f.id == 'str' and len(e.args) == 1:
+            s, v = eng.ev1(e.args[0], st)
+            if v.s == INT:
+                r = fresh('number_text', TXT); s.assume(nl(r) == 0); return [(s, V(r, TXT))]
+        if isinstance(f, ast.Attribute) and f.attr == 'strftime' and len(e.args) == 1 and isinstance(e.args[0], ast.Constant) and '\n' not in str(e.args[0].value):
+            s, v = eng.ev1(f.value, st)
+            eng.unwrap(s, v, 'safe/AttributeError-None', f'.strftime @{e.lineno}')
+            r = fresh('date_text', TXT); s.assume(nl(r) == 0)          # the format '%d.%m.%Y %H:%M' has no line break
+            return [(s, V(r, TXT))]
+        return NetSrcPlugin.call(self, eng, e, st)
+
+
+def task_line_unit():
+    def build():
+        name = lambda c, t: Select(c.fld('Task', 'name'), t)
+
+        def c_state(eng, st, recv, args, kws, node):          # __mermaid_task_state (proved above): one of 'milestone,', 'done,', 'active,', '' - no line break
+            r = fresh('state_token', TXT); st.assume(nl(r) == 0); return [(st, V(r, TXT))]
+        fc = {'sig': {'self': GANTT, 't': T},
+              'requires': [('scheduled-task-with-a-single-line-name', lambda c: And(c['self'] != GANTT.null, c['t'] != null, nl(name(c, c['t'])) == 0,
+                                                                                   OT.dt.is_some(Select(c.fld('Task', 'start'), c['t'])), OT.dt.is_some(Select(c.fld('Task', 'end'), c['t']))))],
+              'ensures': [('C19/a-task-line-is-exactly-one-line', lambda c: nl(c.result.e) == 1)]}
+        contracts = {'MermaidGantt._MermaidGantt__mermaid_task_state': c_state, 'prop:Task.id': c_id}
+
+        class _Ax(list):
+            def __iter__(self): return iter(text_axioms())
+            def __len__(self): return len(text_axioms())
+        return Engine(FG, 'MermaidGantt.__mermaid_task', contracts, GCL, fc, plugins=[TaskLinePlugin()]), _Ax()
+    return Unit('MermaidGantt.__mermaid_task', FG, build, ['C19'])
+
+
+UNITS += [task_line_unit()]
+
+
+# ================================================================================================ MermaidGantt.__src: one task line per task, one section line per section (C19, line count)
+# The section dictionary (section -> list of its tasks, keys in insertion order) is a pair (K, M): key list and map.  total(K, M, n) = sum of len(M[K[j]]) for j < n;
+# its three frame facts (TOTAL_AX: a key that is not among the first n keys does not matter, appending a key does not matter, replacing the list of a key that
+# occurs once changes the sum by the difference of the lengths) are inductions over n - assumed here, checked on all small instances in selftest/validate_axioms.py.
+from contracts.text import OTX, tlen
+SECS = LIST(TXT); SMd = Datatype('SectionDict'); SMd.declare('mk', ('keys', SECS.z), ('lists', ArraySort(TXT.z, LT.z))); SMd = SMd.create(); SMAP = S('SectionDict', SMd)
+smem = Function('has_section', SECS.z, TXT.z, BoolSort()); sidx = Function('section_index', SECS.z, TXT.z, IntSort()); sapp = Function('app_section', SECS.z, TXT.z, SECS.z); snodup = Function('sections_distinct', SECS.z, BoolSort())
+noS = Const('no_sections', SECS.z); total = Function('tasks_in_first_sections', SECS.z, ArraySort(TXT.z, LT.z), IntSort(), IntSort())
+has_sec = Function('has_gantt_section', T.z, BoolSort()); gsec = Function('gantt_section_of', T.z, TXT.z)
+ks_, mm_ = Const('ks_', SECS.z), Const('mm_', ArraySort(TXT.z, LT.z)); sx_, sy_ = Consts('sx_ sy_', TXT.z); lv_ = Const('lv_', LT.z); n3 = Int('n3')
+SEC_AX = [ForAll([ks_], SECS.len(ks_) >= 0), SECS.len(noS) == 0, snodup(noS), ForAll([sx_], Not(smem(noS, sx_)), patterns=[smem(noS, sx_)]),
+          ForAll([ks_, sx_], Implies(smem(ks_, sx_), And(0 <= sidx(ks_, sx_), sidx(ks_, sx_) < SECS.len(ks_), SECS.at(ks_, sidx(ks_, sx_)) == sx_)), patterns=[smem(ks_, sx_)]),
+          ForAll([ks_, n3], Implies(And(0 <= n3, n3 < SECS.len(ks_)), smem(ks_, SECS.at(ks_, n3))), patterns=[SECS.at(ks_, n3)]),
+          ForAll([ks_, n3], Implies(And(snodup(ks_), 0 <= n3, n3 < SECS.len(ks_)), sidx(ks_, SECS.at(ks_, n3)) == n3), patterns=[MultiPattern(snodup(ks_), SECS.at(ks_, n3))]),
+          ForAll([ks_, sx_], And(SECS.len(sapp(ks_, sx_)) == SECS.len(ks_) + 1, SECS.at(sapp(ks_, sx_), SECS.len(ks_)) == sx_, Implies(And(snodup(ks_), Not(smem(ks_, sx_))), snodup(sapp(ks_, sx_)))), patterns=[sapp(ks_, sx_)]),
+          ForAll([ks_, sx_, n3], Implies(And(0 <= n3, n3 < SECS.len(ks_)), SECS.at(sapp(ks_, sx_), n3) == SECS.at(ks_, n3)), patterns=[SECS.at(sapp(ks_, sx_), n3)]),
+          ForAll([ks_, sx_, sy_], smem(sapp(ks_, sx_), sy_) == Or(smem(ks_, sy_), sy_ == sx_), patterns=[smem(sapp(ks_, sx_), sy_)])]
+TOTAL_AX = [ForAll([ks_, mm_], total(ks_, mm_, 0) == 0, patterns=[total(ks_, mm_, 0)]),
+            ForAll([ks_, mm_, n3], Implies(n3 >= 0, total(ks_, mm_, n3 + 1) == total(ks_, mm_, n3) + ln(mm_[SECS.at(ks_, n3)])), patterns=[total(ks_, mm_, n3 + 1)]),
+            # frame facts (inductions over n3)
+            ForAll([ks_, mm_, sx_, lv_, n3], Implies(And(0 <= n3, n3 <= SECS.len(ks_), Not(smem(ks_, sx_))), total(ks_, Store(mm_, sx_, lv_), n3) == total(ks_, mm_, n3)), patterns=[total(ks_, Store(mm_, sx_, lv_), n3)]),
+            ForAll([ks_, mm_, sx_, n3], Implies(And(0 <= n3, n3 <= SECS.len(ks_)), total(sapp(ks_, sx_), mm_, n3) == total(ks_, mm_, n3)), patterns=[total(sapp(ks_, sx_), mm_, n3)]),
+            ForAll([ks_, mm_, sx_, lv_], Implies(And(snodup(ks_), smem(ks_, sx_)), total(ks_, Store(mm_, sx_, lv_), SECS.len(ks_)) == total(ks_, mm_, SECS.len(ks_)) - ln(mm_[sx_]) + ln(lv_)),
+                   patterns=[total(ks_, Store(mm_, sx_, lv_), SECS.len(ks_))])]
+
+
+class GanttSrcPlugin(TaskLinePlugin):
+    def truth(self, eng, st, v):
+        if v.s == OTX: return And(OTX.dt.is_some(v.e), tlen(OTX.dt.val(v.e)) > 0)
+        if v.s.name == 'SectionSet': return v.e > 0
+        return TaskLinePlugin.truth(self, eng, st, v)
+
+    def ev_Attribute(self, eng, e, st):
+        if isinstance(e.ctx, ast.Load) and e.attr in ('__dict__', 'gantt_section'):
+            s, o = eng.ev1(e.value, st)
+            if o.s == T:
+                s.oblige('safe/AttributeError-None', o.e != null, f'@{e.lineno}')
+                if e.attr == 'gantt_section':
+                    s.oblige('safe/AttributeError-no-such-attribute', has_sec(o.e), f'.gantt_section @{e.lineno}')
+                    return [(s, V(gsec(o.e), TXT))]
+                return [(s, V(o.e, S('TaskDictOf', T.z)))]
+        return NetSrcPlugin.ev_Attribute(self, eng, e, st)
+
+    def cmp(self, eng, st, k, l_, r, line):
+        if k == 'In' and l_.s == TXT and r.s.name == 'TaskDictOf' and l_.e.eq(lit('gantt_section')): return has_sec(r.e)
+        return NetSrcPlugin.cmp(self, eng, st, k, l_, r, line)
+
+    def ev_Dict(self, eng, e, st):
+        if not e.keys: return [(st, V(SMd.mk(noS, K(TXT.z, empty)), SMAP))]
+        return NotImplemented
+
+    def call(self, eng, e, st):
+        f = e.func
+        if isinstance(f, ast.Name) and f.id == 'set' and len(e.args) == 1 and isinstance(e.args[0], ast.ListComp):          # the set of section names: only its size matters here
+            n = fresh('number_of_sections', INT); st.assume(n >= 0); return [(st, V(n, S('SectionSet', IntSort())))]
+        if isinstance(f, ast.Name) and f.id == 'len' and len(e.args) == 1:
+            s, v = eng.ev1(e.args[0], st)
+            if v.s.name == 'SectionSet': return [(s, V(v.e, INT))]
+        if isinstance(f, ast.Attribute) and f.attr == 'append' and isinstance(f.value, ast.Call) and isinstance(f.value.func, ast.Attribute) and f.value.func.attr == 'setdefault' \
+                and isinstance(f.value.func.value, ast.Name) and st.env.get(f.value.func.value.id) is not None and st.env[f.value.func.value.id].s == SMAP:
+            nm = f.value.func.value.id; s, k = eng.ev1(f.value.args[0], st); s, v = eng.ev1(e.args[0], s)
+            m = s.env[nm].e; Ks, Ms = SMd.keys(m), SMd.lists(m)
+            inn = s.fork(smem(Ks, k.e)); new = s.fork(Not(smem(Ks, k.e)))          # d.setdefault(k, []).append(x): x joins the list of k, a new key goes to the end
+            inn.env[nm] = V(SMd.mk(Ks, Store(Ms, k.e, app(Ms[k.e], v.e))), SMAP)
+            new.env[nm] = V(SMd.mk(sapp(Ks, k.e), Store(Ms, k.e, app(empty, v.e))), SMAP)
+            return [(inn, V(None, NONE)), (new, V(None, NONE))]
+        if isinstance(f, ast.Attribute) and f.attr == 'format' and isinstance(f.value, ast.Constant) and len(e.args) == 1:
+            s, v = eng.ev1(e.args[0], st)
+            if v.s == OTX:
+                vv = eng.unwrap(s, v, 'safe/None-formatted', f'@{e.lineno}')
+                r = fresh('formatted', TXT); s.assume(nl(r) == f.value.value.count('\n') + nl(vv.e)); return [(s, V(r, TXT))]
+        return TaskLinePlugin.call(self, eng, e, st)
+
+    def for_loop(self, eng, stmt, st):
+        if ast.unparse(stmt.iter) != 'sections_map.items()': return NotImplemented
+        k = eng.loop_contract[eng.loop_ids[id(stmt)]][0]; idxn = f'_i{k}'; eng.locals[idxn] = INT
+        st.env[idxn] = V(IntVal(0), INT); kn, vn = [x.id for x in stmt.target.elts]
+
+        def guard(s): return [(s, s.env[idxn].e < SECS.len(SMd.keys(s.env['sections_map'].e)))]
+
+        def pre(b):
+            m = b.env['sections_map'].e; key = SECS.at(SMd.keys(m), b.env[idxn].e)
+            b.env[kn] = V(key, TXT); b.env[vn] = V(SMd.lists(m)[key], LT); b.env[idxn] = V(b.env[idxn].e + 1, INT); return [b]
+        return eng.loop(stmt, st, guard, pre, extra_havoc=[idxn, kn, vn])
+
+
+def gantt_src_unit():
+    def build():
+        hc = lambda c: H(c.eng, c.st)
+        wbs = lambda c: Select(c.fld('MermaidGantt', 'wbs'), c['self'])
+        TS = lambda c: dfs(hc(c).chl, hc(c).elems, hc(c).root[wbs(c)])
+        name = lambda c, t: Select(c.fld('Task', 'name'), t)
+        okt = lambda c, t: And(t != null, nl(name(c, t)) == 0, OT.dt.is_some(Select(c.fld('Task', 'start'), t)), OT.dt.is_some(Select(c.fld('Task', 'end'), t)), Implies(has_sec(t), nl(gsec(t)) == 0))
+        Ks = lambda c: SMd.keys(c['sections_map']); Ms = lambda c: SMd.lists(c['sections_map']); hdr = lambda c: c.st.ghost['hdr']
+        secof = lambda t: If(has_sec(t), gsec(t), lit('-'))
+
+        def c_tasks(eng, st, recv, args, kws, node):
+            st.ghost['hdr'] = nl(st.env['res'].e)          # the lines of the heading written so far (ghost)
+            h = H(eng, st); return [(st, V(dfs(h.chl, h.elems, h.root[recv.e]), LT))]
+
+        def c_task_line(eng, st, recv, args, kws, node):          # __mermaid_task (proved above): exactly one line
+            t = args[0].e
+            st.oblige('req@__mermaid_task/scheduled-task-with-a-single-line-name', And(t != null, nl(Select(eng.field(st, 'Task', 'name'), t)) == 0,
+                                                                                      OT.dt.is_some(Select(eng.field(st, 'Task', 'start'), t)), OT.dt.is_some(Select(eng.field(st, 'Task', 'end'), t))), f'@{node.lineno}')
+            r = fresh('task_line', TXT); st.assume(nl(r) == 1); return [(st, V(r, TXT))]
+        map_ok = lambda c: And(snodup(Ks(c)), ForAll([sx_, t_r], Implies(mem(Ms(c)[sx_], t_r), And(mem(TS(c), t_r), smem(Ks(c), sx_), nl(sx_) == 0, secof(t_r) == sx_)), patterns=[mem(Ms(c)[sx_], t_r)]),
+                               ForAll([n3], Implies(And(0 <= n3, n3 < SECS.len(Ks(c))), And(nl(SECS.at(Ks(c), n3)) == 0, ln(Ms(c)[SECS.at(Ks(c), n3)]) >= 1)), patterns=[SECS.at(Ks(c), n3)]))
+        members_ok = lambda c: ForAll([t_r], Implies(mem(TS(c), t_r), okt(c, t_r)), patterns=[mem(TS(c), t_r)])
+        fc = {'sig': {'self': GANTT}, 'locals': {'res': TXT, 'tasks': LT, 'sections_map': SMAP, 'task': T, 'task_section': TXT, 'k': TXT, 'v': LT}, 'ghost': {'hdr': INT},
+              'requires': [('renderer-has-a-wbs', lambda c: And(c['self'] != GANTT.null, wbs(c) != W.null)),
+                           ('members-are-scheduled-tasks-with-single-line-names-and-sections', lambda c: And(members_ok(c), ForAll([n3], Implies(And(0 <= n3, n3 < ln(TS(c))), mem(TS(c), at(TS(c), n3))), patterns=[at(TS(c), n3)])))],
+              'loops': {0: {'fingerprint': 'for task in tasks', 'havoc': ['sections_map'],
+                            'invariant': [('grouping/frame', lambda c: And(same_heap(c), c['tasks'] == TS(c), c['_i0'] >= 0, c['_i0'] <= ln(TS(c)), nl(c['res']) == hdr(c))),
+                                          ('grouping/sections-distinct-non-empty-and-hold-tasks-of-that-section', map_ok),
+                                          ('grouping/every-task-passed-is-in-exactly-one-list', lambda c: total(Ks(c), Ms(c), SECS.len(Ks(c))) == c['_i0'])]},
+                        1: {'fingerprint': 'for (k, v) in sections_map.items()',
+                            'invariant': [('sections-written-so-far', lambda c: And(same_heap(c), map_ok(c), total(Ks(c), Ms(c), SECS.len(Ks(c))) == ln(TS(c)), c['_i1'] >= 0, c['_i1'] <= SECS.len(Ks(c)),
+                                                                                nl(c['res']) == hdr(c) + c['_i1'] + total(Ks(c), Ms(c), c['_i1'])))]},
+                        2: {'fingerprint': 'for task in v',
+                            'invariant': [('task-lines-of-this-section-so-far', lambda c: And(same_heap(c), map_ok(c), total(Ks(c), Ms(c), SECS.len(Ks(c))) == ln(TS(c)), c['_i1'] >= 1, c['_i1'] <= SECS.len(Ks(c)),
+                                                                                          c['k'] == SECS.at(Ks(c), c['_i1'] - 1), c['v'] == Ms(c)[c['k']], c['_i2'] >= 0, c['_i2'] <= ln(c['v']),
+                                                                                          nl(c['res']) == hdr(c) + c['_i1'] + total(Ks(c), Ms(c), c['_i1'] - 1) + c['_i2']))]},
+                        3: {'fingerprint': 'for task in tasks',
+                            'invariant': [('task-lines-so-far', lambda c: And(same_heap(c), c['tasks'] == TS(c), c['_i3'] >= 0, c['_i3'] <= ln(TS(c)), nl(c['res']) == hdr(c) + c['_i3']))]}},
+              'ensures': [('C19/one-task-line-per-task-plus-one-section-line-per-section-after-the-heading',
+                           lambda c: nl(c.result.e) == hdr(c) + ln(TS(c)) + (SECS.len(SMd.keys(c.st.env['sections_map'].e)) if c.st.env.get('sections_map') is not None else 0)),
+                          ('C19/sections-are-distinct-none-is-empty-and-each-lists-only-tasks-of-that-section', lambda c: map_ok(c) if c.st.env.get('sections_map') is not None else BoolVal(True)),
+                          ('C19/reads-the-task-graph-only', same_heap)]}
+        contracts = {'prop:WBS.tasks': c_tasks, 'MermaidGantt._MermaidGantt__mermaid_task': c_task_line}
+
+        class _Ax(list):
+            def __iter__(self): return iter(LIST_AX + SEC_AX + TOTAL_AX + text_axioms())
+            def __len__(self): return len(LIST_AX + SEC_AX + TOTAL_AX + text_axioms())
+        cl = dict(GCL); cl['MermaidGantt'] = {'wbs': W, 'title': OTX, 'weekends': BOOL, 'tick_interval': OTX}
+        return Engine(FG, 'MermaidGantt.__src', contracts, cl, fc, plugins=[GanttSrcPlugin(), ChildrenPlugin()]), _Ax()
+    return Unit('MermaidGantt.__src', FG, build, ['C19'], shards=4, timeout_ms=15000)          # the three optional heading lines multiply the paths by eight: the paths are spread over four workers
+
+
+UNITS += [gantt_src_unit()]
